@@ -259,3 +259,46 @@ pub(crate) fn tap_event(event: &TestEvent<'_>) {
         let _ = writeln!(f, "{} {}", monotonic_ns(), line);
     }
 }
+
+/// `PausableSleep` (crate-private) driven from outside: the verification harness runs it on a current-thread runtime whose
+/// clock is paused (`tokio::time::pause` / `advance`), so every operation sequence is deterministic.
+pub struct VerifSleep(std::pin::Pin<Box<crate::time::PausableSleep>>);
+
+impl VerifSleep {
+    /// `pausable_sleep(duration)`
+    pub fn new(duration: std::time::Duration) -> Self {
+        Self(Box::pin(crate::time::pausable_sleep(duration)))
+    }
+
+    /// `is_paused`
+    pub fn is_paused(&self) -> bool {
+        self.0.is_paused()
+    }
+
+    /// `pause`
+    pub fn pause(&mut self) {
+        self.0.as_mut().pause()
+    }
+
+    /// `resume`
+    pub fn resume(&mut self) {
+        self.0.as_mut().resume()
+    }
+
+    /// `reset`
+    pub fn reset(&mut self, duration: std::time::Duration) {
+        self.0.as_mut().reset(duration)
+    }
+
+    /// `reset_last_duration`
+    pub fn reset_last_duration(&mut self) {
+        self.0.as_mut().reset_last_duration()
+    }
+
+    /// Polls the sleep once: has it fired?
+    pub fn fired(&mut self) -> bool {
+        let waker = futures::task::noop_waker();
+        let mut cx = std::task::Context::from_waker(&waker);
+        std::future::Future::poll(self.0.as_mut(), &mut cx).is_ready()
+    }
+}
